@@ -765,6 +765,43 @@ func c11Run(w *W) {
 			c11Explore(w, t, envRed, 2)
 		})
 	})
+	// skipped operand × sibling side effect (a slice of depth 3): every depth-1 tree, faulty ones included, as
+	// the operand C skips in 0&&h, 1||h, 1?0:h, 0?h:1, combined with an assignment or increment that IS evaluated.
+	// The skipped operand must leave no trace: no fault, no store, and no effect on the sibling's store.
+	skipLeaves := append(append([]*axNode{}, red...), axNum("08"))
+	sibs := []*axNode{
+		{K: "asg", Op: "=", Kids: []*axNode{axVar("x"), axNum("2")}},
+		{K: "pre", Op: "++", Kids: []*axNode{axVar("x")}},
+		{K: "post", Op: "--", Kids: []*axNode{axVar("x")}},
+		{K: "asg", Op: "+=", Kids: []*axNode{axVar("y"), axNum("3")}},
+	}
+	c11Depth1(skipLeaves, func(h *axNode) {
+		if !w.Mine() || w.TimeUp() {
+			return
+		}
+		w.Announce("skipped " + h.render(false, false))
+		skips := []*axNode{
+			{K: "land", Op: "&&", Kids: []*axNode{axNum("0"), h}},
+			{K: "lor", Op: "||", Kids: []*axNode{axNum("1"), h}},
+			{K: "cond", Op: "?:", Kids: []*axNode{axNum("1"), axNum("0"), h}},
+			{K: "cond", Op: "?:", Kids: []*axNode{axNum("0"), h, axNum("1")}},
+		}
+		for _, sk := range skips {
+			for _, sb := range sibs {
+				for _, t := range []*axNode{
+					{K: "bin", Op: "+", Kids: []*axNode{sk, sb}},
+					{K: "bin", Op: "*", Kids: []*axNode{sb, sk}},
+					{K: "land", Op: "&&", Kids: []*axNode{sk, sb}},
+					{K: "lor", Op: "||", Kids: []*axNode{sk, sb}},
+					{K: "cond", Op: "?:", Kids: []*axNode{sk, sb, sb}},
+					{K: "asg", Op: "=", Kids: []*axNode{axVar("y"), {K: "bin", Op: "-", Kids: []*axNode{sk, sb}}}},
+				} {
+					w.Count("skipped_operand_with_sibling", 1)
+					c11Explore(w, t, envRed, 1)
+				}
+			}
+		}
+	})
 	if w.thorough() {
 		// depth 2, complete, over a small leaf set (binary/logical/assign roots)
 		small := []*axNode{axNum("0"), axNum("1"), axNum("7"), axVar("x")}
@@ -792,7 +829,7 @@ func init() {
 		id:    "C11",
 		level: "model_checking",
 		rule: "every expression tree of depth ≤ 1 over all operators and the 16 operands × 64 environments (x,y ∈ {unset,'',5,010,0x1F,abc,MinInt64,-1}) in 4 layouts; " +
-			"every depth-1 tree over 8 operands placed in every depth-1 context (one-hole depth 2); thorough adds the complete depth-2 product for binary/logical roots over 4 operands. " +
+			"every depth-1 tree over 8 operands placed in every depth-1 context (one-hole depth 2); every depth-1 tree over 9 operands (faulty ones included) as the operand C skips in 0&&h, 1||h, 1?0:h, 0?h:1 × 4 evaluated assignments/increments × 6 combining contexts (a slice of depth 3); thorough adds the complete depth-2 product for binary/logical roots over 4 operands. " +
 			"Trees C leaves undefined (unsequenced modify/access, shift ≥ 64, MinInt64/-1) are detected and excluded. Non-trivial = the model faults or changes a variable",
 		assume: []string{"reference evaluator c11.go (tree walking, int64 wrap-around) is trusted; cross-checked against bash $(( )) at design time",
 			"which of several errors is reported is not compared (C06 covers schedule dependence); only 'an ArithExprError' and the variable store at the fault"},
